@@ -42,3 +42,44 @@ func Harness_C17_weights() {
 	}
 	vAssert(len(sess) >= 1, "at least one log has positive weight at every moment")
 }
+
+// Harness_C17_weightRefusal: a weight change that would leave fewer logs with positive weight
+// than the group needs is refused and leaves every weight as it was (SetLogWeight and
+// SetLogWeights alike): the next session still offers enough logs. Accepted changes take effect.
+//
+//verif:opt maxpaths=2000 reach=refused,accepted
+func Harness_C17_weightRefusal() {
+	need := 1 + vChoice("min-inclusions", 3)
+	g := &LogGroupInfo{Name: "G", LogURLs: map[string]bool{"a": true, "b": true, "c": true}, MinInclusions: need,
+		LogWeights: map[string]float32{"a": 1, "b": 1, "c": 1}}
+	zeroed := vChoice("logs-already-at-zero", 2) // 0: none, 1: "c"
+	if zeroed == 1 {
+		g.LogWeights["c"] = 0
+	}
+	positive := 3 - zeroed
+	vAssume(positive >= need)
+	before := map[string]float32{"a": g.LogWeights["a"], "b": g.LogWeights["b"], "c": g.LogWeights["c"]}
+	var err error
+	single := vChoice("single-log-setter", 2) == 1
+	w := []float32{0, 2}[vChoice("new-weight", 2)]
+	if single {
+		err = g.SetLogWeight("a", w)
+	} else {
+		err = g.SetLogWeights(map[string]float32{"a": w, "b": before["b"], "c": before["c"]})
+	}
+	after := positive
+	if w == 0 {
+		after--
+	}
+	if after < need {
+		vAssert(err != nil, "a change that makes the minimal inclusion number unreachable is refused")
+		for l, wt := range before {
+			vAssert(g.LogWeights[l] == wt, "a refused change leaves every weight as it was")
+		}
+		vAssert(len(g.GetSubmissionSession()) >= need, "the next session still offers enough logs")
+		vReach("refused")
+		return
+	}
+	vAssert(err == nil && g.LogWeights["a"] == w && g.LogWeights["b"] == before["b"] && g.LogWeights["c"] == before["c"], "an acceptable change takes effect, for that log only")
+	vReach("accepted")
+}
